@@ -80,6 +80,9 @@ func (g *gen) funcInChanOut(name string, typ types.Type, recvOnly bool) (inTyp, 
 	if !ok {
 		return nil, nil, fmt.Errorf("%s is not a function: %s", name, typ)
 	}
+	if sig.Variadic() {
+		return nil, nil, fmt.Errorf("%s, the function, %s, is a variadic function, which is not supported", name, g.TypeString(typ))
+	}
 	params := sig.Params()
 	results := sig.Results()
 	if params.Len() != 1 {
